@@ -184,7 +184,12 @@ Observe(m, s, me) ==
         IF b \in GuardMethods THEN m.opx  ELSE 0 - 1,
         IF b \in GuardMethods THEN m.opc  ELSE 0 - 1,
         IF b \in GuardMethods THEN m.pend       ELSE <<>>,
-        IF b \in GuardMethods \cup LifeMethods THEN m.cur ELSE <<>>  >>
+        IF b \in GuardMethods \cup LifeMethods THEN m.cur ELSE <<>>,
+        \* the regions' head / sub-state statuses accumulated so far in this call (result + 3 * outerTransition)
+        IF b \in UpdateMethods \cup ReactMethods \cup PlanMethods
+        THEN << [r \in Regions |-> IF "PLANS" \in Cfg.features THEN m.hst[r].r + (IF m.hst[r].ot THEN 3 ELSE 0) ELSE 0],
+                [r \in Regions |-> IF "PLANS" \in Cfg.features THEN m.sst[r].r + (IF m.sst[r].ot THEN 3 ELSE 0) ELSE 0] >>
+        ELSE <<>>  >>
 
 Event(m, s, me) == <<s, me>> \o Observe(m, s, me)
 
